@@ -147,7 +147,7 @@ pub fn save_snapshot(
     zip.write_all(&registers_blob)?;
 
     zip.start_file("external_ram.bin", options)?;
-    zip.write_all(memory.external_slice())?;
+    zip.write_all(&memory.export_flat_external())?;
 
     zip.start_file("internal_ram.bin", options)?;
     zip.write_all(memory.internal_ram_slice())?;
@@ -201,6 +201,7 @@ pub fn load_snapshot(path: &Path, memory: &mut MemoryImage) -> Result<SnapshotLo
         let mut ext_buf = Vec::new();
         ext_file.read_to_end(&mut ext_buf)?;
         memory.copy_external_from(&ext_buf)?;
+        memory.import_overlay_data_from_flat(&ext_buf);
     }
 
     if let Ok(mut int_file) = archive.by_name("internal_ram.bin") {
